@@ -2,6 +2,7 @@
 import random
 
 from .. import gen
+from .. import universe as U
 from ..core import Result
 from ..histsim import HistoryProperty, gen_history
 from ..world import World, global_state_guard
@@ -48,6 +49,23 @@ class C01(HistoryProperty):
         cfg = gen.swarm_cfg(rng)
         spec = gen.prune(gen.gen_spec(rng, cfg))
         ops = gen_history(rng, cfg, spec)
+        # derivations made from WARM datasets in the middle of the history (they share the parent's cache)
+        bases = [n for n in spec["nodes"] if n["k"] == "dataset"]
+        if bases and cfg["presets"] and rng.random() < 0.4:
+            g = gen.SpecGen(rng, cfg)
+            for j in range(rng.randint(1, 2)):
+                base = rng.choice(bases)
+                how = rng.choice(["with_options", "with_default_options"]) if cfg["default_presets"] else "with_options"
+                forced = set(U.leaf_paths(base.get("options") or {}))
+                node = {"k": "derive", "base": base["id"], "how": how, "options": g.preset(avoid=forced if how == "with_options" else ()), "id": f"late{j}"}
+                at = rng.randrange(1, len(ops) + 1)
+                ops.insert(at, {"op": "derive", "node_def": node})
+                dg = U.DictGen(rng, cfg)
+                o = ops[at - 1].get("o", {})
+                for k in range(at + 1, len(ops) + 1):
+                    if rng.random() < 0.4:
+                        o, m = dg.mutate(o)
+                        ops.insert(k, {"op": "evaluate", "node": node["id"], "o": o, "mut": m})
         return {"cfg": cfg, "spec": spec, "ops": ops}
 
     def run_case(self, case):
@@ -56,6 +74,13 @@ class C01(HistoryProperty):
             w = World(case["spec"])
             hit_any = False
             for i, op in enumerate(case["ops"]):
+                if op["op"] == "derive":
+                    if op["node_def"]["base"] in w.prog.obj:
+                        w.do(op)
+                        res.bump("late_derivations")
+                    continue
+                if op["node"] not in w.prog.obj:
+                    continue  # (a shrunk history may have lost the derivation this op refers to)
                 before = w.count("body")
                 out = w.do(op)
                 ran = w.count("body") - before
@@ -80,16 +105,18 @@ class C01(HistoryProperty):
                 w.op_index -= 1
                 with labrea.cache.disabled():
                     off = w.do(dict(op))
-                if not off.same(ref):
-                    # attributed to the switch (C16), not to C01 — counted, not a C01 violation
-                    res.bump("disabled_differs_from_twin")
+                if not off.same(out):
+                    # the statement's own yardstick: the same graph with caching switched off for this dictionary
+                    res.violate("differs-from-caching-switched-off", op_index=i, node=op["node"], o=op["o"], cached=out.brief(), switched_off=off.brief(),
+                                cold_twin=ref.brief())
+                    break
                 if w.mutations:
                     res.bump("input_mutations", len(w.mutations))
             res.stats["events"] = w.log.seq
             res.digest = w.log.digest()
-            res.seen("history", (case["spec"], [op["o"] for op in case["ops"]]))
+            res.seen("history", (case["spec"], [op.get("o") for op in case["ops"]]))
             if hit_any:
-                res.seen("history_with_hit", (case["spec"], [op["o"] for op in case["ops"]]))
+                res.seen("history_with_hit", (case["spec"], [op.get("o") for op in case["ops"]]))
             res.seen("opkinds", [op.get("mut") for op in case["ops"]])
             res.sample = self.sample_of(case)
         return res
